@@ -36,7 +36,7 @@ def nc_case(rng, classes):
     Q2 = 4 * m2 * ratio
     x = rng.choice([x0, x0 - 2.0 ** -rng.randint(3, 12), x0 + 2.0 ** -rng.randint(3, 12), x0 * 0.5, min(0.96875, x0 * 1.5)])
     esf = types.SimpleNamespace(x=x, Q2=Q2)
-    empties, xis = [], set()
+    empties, xis, off = [], set(), []
     zs = [x0, x0 + 2.0 ** -10, x0 - 2.0 ** -10, 0.5 * (x0 + 1.0), min(x, x0) * 0.5]
     zobs = {z: [True, None] for z in zs}
     for mname, cname, cls in classes:
@@ -54,12 +54,14 @@ def nc_case(rng, classes):
                         v = rsl.reg(z, rsl.args["reg"])
                         if not (isinstance(v, float) or isinstance(v, int)) or v != 0.0:
                             zobs[z][0] = False
-                    except Exception:  # noqa
+                            off.append(dict(cls="heavy.%s.%s" % (mname, cname), order=o, z=z, value=repr(v)))
+                    except Exception as e:  # noqa
                         zobs[z][0] = False
+                        off.append(dict(cls="heavy.%s.%s" % (mname, cname), order=o, z=z, value="raises %s" % type(e).__name__))
     term = ("{| n_Q2 := %s; n_m2 := %s; n_x := %s; n_all_empty := %s; n_none_empty := %s; n_z := %s; n_xi := %s |}"
             % (q_lit(Q2), q_lit(m2), q_lit(x), coq_bool(all(empties)), coq_bool(not any(empties)),
                coq_list(["(%s, %s, %s)" % (q_lit(z), coq_bool(zobs[z][0]), q_lit(zobs[z][1])) for z in zs]), q_lit(xis.pop() if len(xis) == 1 else -1.0)))
-    return term, dict(Q2=Q2, m2=m2, x=x, x_threshold=x0, empty=sum(empties), orders_seen=len(empties))
+    return term, dict(Q2=Q2, m2=m2, x=x, x_threshold=x0, empty=sum(empties), orders_seen=len(empties), nonzero_beyond_partonic_threshold=off[:4])
 
 
 def cc_case(rng):
